@@ -123,7 +123,7 @@ class C14:
                    'no thread interleavings: kernpy promises no thread safety and C14 does not quantify over schedules']
     PROBES = ['natural_raise', 'raise_mid_export', 'interrupt_delivered', 'memerr_delivered', 'range_inside_split', 'options_object_reused',
               'doc_with_error_tokens', 'io_fault_on_dump', 'compared_with_fresh', 'background_ops', 'graph_compared', 'two_imports_battery',
-              'dump_compared', 'args_checked', 'caller_edited_a_result', 'reentrant_callback_delivered', 'argument_object_reused']
+              'dump_compared', 'args_checked', 'caller_edited_a_result', 'reentrant_callback_delivered', 'argument_object_reused', 'reference_deferred']
 
     # ================================================================ plan
     def gen_plan(self, seed, index, tier):
@@ -198,7 +198,7 @@ class C14:
             else:
                 fsplan['faults'].append({'kind': fk, 'at': {'byte': frng.randint(0, 120)}, 'sticky': fk == 'enospc_write', 'path': target})
         return {'property': self.PROPERTY, 'config': 'fault_injecting' if faulty else 'fault_free', 'doc': doc.to_json(), 'damage': damage,
-                'others': others, 'ops': ops, 'fs': fsplan, 'reuse_argument_objects': erng.random() < 0.4}
+                'others': others, 'ops': ops, 'fs': fsplan, 'reuse_argument_objects': erng.random() < 0.4, 'defer_reference': erng.random() < 0.4}
 
     def summarize(self, plan):
         return {'config': plan['config'], 'text': self._text(plan), 'ops': plan['ops'], 'fs_faults': plan['fs'].get('faults')}
@@ -580,13 +580,44 @@ class C14:
             add_v('import-raised', 'import-raised/second', 'a document', type(e).__name__)
         after_op('battery', -1)
 
-        compared = 0
-        dumps_compared = 0
+        counters = {'compared': 0, 'dumps': 0}
+        pending = []
+        deferred = bool(plan.get('defer_reference'))
+
+        def judge(op, idx, rL, rF, faulted):
+            k = op['op']
+            if faulted and rL[0] == 'exc':
+                return
+            if rL != rF:
+                add_v('differs-from-fresh-copy', f'differs-from-fresh-copy/{k}', *self._clip_pair(rF, rL), op=k, index=idx,
+                      opts=op.get('opts'), history=[self._op_abstract(x) for x in plan['ops'][:idx]])
+                return
+            counters['compared'] += 1
+            bump(probes, 'compared_with_fresh')
+            if k in ('dumps', 'export_reused'):
+                counters['dumps'] += 1
+            if k == 'graph':
+                bump(probes, 'graph_compared')
+            if k == 'dump':
+                bump(probes, 'dump_compared')
+
+        def flush_pending():
+            while pending:
+                op, idx, rL, faulted = pending.pop(0)
+                try:
+                    Fd, _ = fresh()
+                except Exception as e:
+                    add_v('import-raised', 'import-raised/fresh-copy', 'a document', type(e).__name__, index=idx)
+                    continue
+                judge(op, idx, rL, call(lambda: run_op(Fd, op, 'F')), faulted)
+
         measures = len(L.measure_start_tree_stages)
         inj = intr.injector(kernpy_src())
         with fs.mount():
             for idx, op in enumerate(plan['ops']):
                 k = op['op']
+                if k.startswith('bg_') or 'interrupt' in op:
+                    flush_pending()
                 if k.startswith('bg_'):
                     r = call(lambda: background(op))
                     log.emit('background', k, op.get('which'), r[0])
@@ -633,6 +664,24 @@ class C14:
                             'loads': lambda: kp.dumps(kp.loads(o_text)[0]),
                             'measure': lambda: kp.dumps(o_doc, from_measure=1, to_measure=1),
                         }[nk]
+                if deferred and nested_fn is None:
+                    # reference deferred: the live document makes its calls back to back (nothing in between, not even the
+                    # reference's own call); the fresh copies are imported and asked afterwards, two operations at a time
+                    rL = call(lambda: run_op(L, op, 'L'))
+                    faulted = sum(f.fired for f in fs.faults if not f.kind.startswith('eintr')) != fault_before
+                    log.emit('client', k, self._op_abstract(op), digest_of(rL))
+                    if faulted:
+                        bump(probes, 'io_fault_on_dump')
+                        bump(faults, 'io_fault')
+                    if rL[0] == 'exc':
+                        bump(probes, 'natural_raise')
+                    pending.append((op, idx, rL, faulted))
+                    bump(probes, 'reference_deferred')
+                    after_op(k, idx)
+                    if len(pending) >= 2:
+                        flush_pending()
+                    continue
+                flush_pending()
                 try:
                     Fd, _ = fresh()
                 except Exception as e:
@@ -671,20 +720,9 @@ class C14:
                     bump(probes, 'natural_raise')
                     if k in ('dumps', 'export_reused') and str(op['opts'].get('encoding', '')).startswith('a'):
                         bump(probes, 'raise_mid_export')
-                if not (faulted and rL[0] == 'exc'):
-                    if rL != rF:
-                        add_v('differs-from-fresh-copy', f'differs-from-fresh-copy/{k}', *self._clip_pair(rF, rL), op=k, index=idx,
-                              opts=op.get('opts'), history=[self._op_abstract(x) for x in plan['ops'][:idx]])
-                    else:
-                        compared += 1
-                        bump(probes, 'compared_with_fresh')
-                        if k in ('dumps', 'export_reused'):
-                            dumps_compared += 1
-                        if k == 'graph':
-                            bump(probes, 'graph_compared')
-                        if k == 'dump':
-                            bump(probes, 'dump_compared')
+                judge(op, idx, rL, rF, faulted)
                 after_op(k, idx)
+            flush_pending()
         if fs.escapes:
             from simkit.runner import HarnessError
             raise HarnessError('closure guard: real-path I/O from kernpy during a simulated run: ' + '; '.join(fs.escapes[:3]))
@@ -703,7 +741,7 @@ class C14:
         for kf, vf in fs.stats.items():
             if kf.startswith('fault_'):
                 bump(faults, kf, vf)
-        return self._result(plan, log, viol, faults, probes, doc_abs, compared, dumps_compared)
+        return self._result(plan, log, viol, faults, probes, doc_abs, counters['compared'], counters['dumps'])
 
     # ---------------------------------------------------------------- helpers
     def _result(self, plan, log, viol, faults, probes, doc_abs, compared, dumps_compared):
